@@ -224,6 +224,7 @@ impl Sched {
         self.c.st.lock().unwrap().locks.get(&addr).cloned().unwrap_or_default()
     }
 
+    #[allow(dead_code)]
     pub fn any_writer(&self) -> bool {
         self.c.st.lock().unwrap().locks.values().any(|l| l.writer.is_some())
     }
